@@ -13,6 +13,7 @@ Sites == [k \in 1..Len(Rec.sites) |-> [type |-> Rec.sites[k].type, pos |-> Vec(R
 Op(o) == [W |-> MatI(o.W), t |-> Vec(o.t), tr |-> o.tr]
 OpsSeq == [n \in 1..Len(Rec.ops) |-> Op(Rec.ops[n])]
 Limit == 8
+LimitBerry == 11     \* 1e-5: the curvature carries 1/gap^2, test points have gaps down to 0.01
 
 StructClauses ==
    LET S == Sites  SG == SpaceGroupOf(Rec.lat, S)  O == OpsSeq
@@ -32,7 +33,7 @@ SymmClauses ==
    LET S == Sites  SG == SpaceGroupOf(Rec.lat, S)
        (* inputs on which the per-orbital centre treatment cannot be exact (SymOrbits!MixedCentreSites) are judged by one clause *)
        mixedClass == MixedCentreSites(S, SG) # {} /\ \E k \in 1..Len(Rec.shells) : Rec.shells[k] \in EgBasisShells
-       covariant == Rec.b_berry <= Limit /\ Rec.b_centres <= Limit /\ Rec.b_idem <= Limit
+       covariant == Rec.b_berry <= LimitBerry /\ Rec.b_centres <= Limit /\ Rec.b_idem <= Limit
    IN
    [ structure_ok   |-> DistinctSites(S) /\ PrimitiveCell(SG),
      shells_allowed |-> \A k \in 1..Len(Rec.shells) : ShellAllowed(SG, Rec.shells[k]),
@@ -41,7 +42,7 @@ SymmClauses ==
      energy_symmetric |-> Rec.b_energy <= Limit,
      spin_covariant   |-> Rec.b_spin <= Limit,
      hermitian        |-> Rec.b_herm <= Limit,
-     berry_covariant  |-> mixedClass \/ Rec.b_berry <= Limit,
+     berry_covariant  |-> mixedClass \/ Rec.b_berry <= LimitBerry,
      centres_mapped   |-> mixedClass \/ Rec.b_centres <= Limit,
      idempotent       |-> mixedClass \/ Rec.b_idem <= Limit,
      mixed_centres    |-> mixedClass => covariant ]
